@@ -25,6 +25,9 @@ pub struct FaultDb {
     pub last_commit: Arc<Mutex<Option<Vec<DbRecord>>>>,
     /// a fault was really injected since the counters were reset
     pub fired: Arc<AtomicBool>,
+    /// latency of every READ, in microseconds (0 = none): with parallel insertion it lets sub-tasks overlap, so that
+    /// tasks which outlive a failed call are still at work when the caller rolls back
+    pub read_delay_us: Arc<AtomicU64>,
 }
 
 impl FaultDb {
@@ -42,6 +45,13 @@ impl FaultDb {
             return Err(StorageError::Connection(format!("injected fault at storage operation {n} ({kind})")));
         }
         Ok(())
+    }
+
+    async fn read_delay(&self) {
+        let d = self.read_delay_us.load(Ordering::SeqCst);
+        if d > 0 {
+            tokio::time::sleep(std::time::Duration::from_micros(d)).await;
+        }
     }
 
     pub fn reset_counters(&self) {
@@ -83,21 +93,25 @@ impl Database for FaultDb {
     }
 
     async fn get<St: Storable>(&self, id: &St::StorageKey) -> Result<DbRecord, StorageError> {
+        self.read_delay().await;
         self.tick("get")?;
         self.inner.get::<St>(id).await
     }
 
     async fn batch_get<St: Storable>(&self, ids: &[St::StorageKey]) -> Result<Vec<DbRecord>, StorageError> {
+        self.read_delay().await;
         self.tick("batch_get")?;
         self.inner.batch_get::<St>(ids).await
     }
 
     async fn get_user_data(&self, username: &AkdLabel) -> Result<KeyData, StorageError> {
+        self.read_delay().await;
         self.tick("get_user_data")?;
         self.inner.get_user_data(username).await
     }
 
     async fn get_user_state(&self, username: &AkdLabel, flag: ValueStateRetrievalFlag) -> Result<ValueState, StorageError> {
+        self.read_delay().await;
         self.tick("get_user_state")?;
         self.inner.get_user_state(username, flag).await
     }
@@ -107,6 +121,7 @@ impl Database for FaultDb {
         usernames: &[AkdLabel],
         flag: ValueStateRetrievalFlag,
     ) -> Result<HashMap<AkdLabel, (u64, AkdValue)>, StorageError> {
+        self.read_delay().await;
         self.tick("get_user_state_versions")?;
         self.inner.get_user_state_versions(usernames, flag).await
     }
